@@ -7,6 +7,7 @@ from ..settings import Order, Sign
 @dataclass
 class NodeList:
     nodes: List     = field(default_factory = list)  # list of nodes
+    current: int    = -1                             # position of the node that was defined or modified last
     
     def __len__(self):
         return len(self.nodes)
@@ -44,6 +45,12 @@ class NodeList:
     
     def append(self, node):
         self.nodes.append(node)
+        self.current = -1
+
+    def last(self):
+        """ Node that was defined or modified last: node properties given on the following lines belong to it
+        """
+        return self.nodes[self.current]
         
     def prepend(self, nodes):
         self.nodes = nodes + self.nodes
